@@ -71,6 +71,9 @@ def build_harness(need26=True):
             sh([os.path.join(HARNESS, "evilssh_src", "gen.sh")], cwd=HARNESS, env=GOENV, timeout=300)
         rc, out = sh(["go", "build", "-tags", "verif", "-o", os.path.join(HARNESS, "bin") + "/", "./cmd/..."],
                      cwd=HARNESS, env=GOENV, timeout=900)
+        if rc != 0 and re.search(r"(signal: killed|out of memory|cannot allocate)", out):
+            rc, out = sh(["go", "build", "-tags", "verif", "-o", os.path.join(HARNESS, "bin") + "/", "./cmd/..."],
+                         cwd=HARNESS, env=GOENV, timeout=900)
         if rc == 0 and need26:
             rc, out = sh(["go1.26", "build", "-tags", "verif", "-o", CORR26, "./cmd/corr"], cwd=HARNESS, env=GOENV, timeout=1800)
     return rc == 0, out
@@ -136,6 +139,11 @@ def regen_facts():
 def lake_build(targets):
     with Lock("lake"):
         rc, out = sh(["lake", "build"] + targets, cwd=LEAN, timeout=3600)
+        if rc != 0 and "error:" not in out.replace("error: build failed", ""):
+            # no Lean error message: the build was cut short (killed, out of memory under load); once more
+            rc, out = sh(["lake", "build"] + targets, cwd=LEAN, timeout=3600)
+        elif rc != 0 and re.search(r"(Killed|signal|out of memory|exited with code 1(37|43))", out):
+            rc, out = sh(["lake", "build"] + targets, cwd=LEAN, timeout=3600)
     return rc == 0, out
 
 
